@@ -18,6 +18,7 @@ CLAIMS = {
  "C16": ("tlc-volatile+guestmem", "Same states as C05 with the converse inclusion: after each recorded operation the bitmap of every region must not contain any page outside the specification's page set (reads, queries, derivations, stream-out and refused requests leave it unchanged; a failed descriptor read marks exactly its target).", "6 C16"),
  "C07": ("tlc-volatile+guestmem", "Every recorded call (all entry points of slices, regions, guest memory and bitmaps, arguments drawn from 0, len+-1, isize::MAX+-1, usize::MAX, top/bottom-of-space layouts) must not end in a panic unless the specification marks it as a documented index panic; the impl-shaped try_access / range arithmetic is written with trapping unchecked operators and TLC checks that no trap is reachable.", "6 C07"),
  "C18": ("tlc-volatile+guestmem", "Zero-length requests (empty buffers, zero-sized element types, zero counts) are ordinary members of the enumerated argument sets at slice, region and guest-memory level; the trace specification demands Ok and unchanged memory and bitmap for each of them, at mapped, unmapped, one-past and extreme addresses.", "6 C18"),
+ "C10": ("tlc-regions", "Regions.tla keeps every map ever created (a map is an immutable sequence of region ids) and transcribes from_arc_regions / insert_region (push + stable sort) / remove_region; TLC checks on all histories of up to 5-6 operations (overlap by one byte, duplicate starts, adjacency, wrong-size and non-start removals) that the checks accept exactly the sorted disjoint sequences, that every returned map is sorted/disjoint and equals the old set plus/minus one region, and that no earlier map ever changes. Every history is replayed on the real GuestMemoryMmap with ALL maps and removed handles kept alive and re-observed after every step (iter(), num_regions(), a tag byte read through each map to establish region identity), also shifted to 2^63 and to the top of the address space where creation must be refused exactly when base+size reaches 2^64.", "6 C10"),
  "C13": ("tlc-streams", "Streams.tla specifies each adapter class (consuming source, bounded sink, growing sink, read cursor, write cursor, file descriptor) by what std::io::Read/Write does with an ordinary buffer; TLC checks exact-iff-enough and the sink frame on all call sequences of length 4 over stream/buffer lengths on both sides of the 8-byte threshold and positions past the end. Every such sequence is replayed on every real adapter of the class (&[u8], &mut [u8], Vec, Cursor<Vec>, Cursor<&[u8]>, Cursor<&mut [u8]>, File, OwnedFd, BorrowedFd, UnixStream) next to the std call on a twin stream; TLC validates the volatile outcome against the specification, against the std outcome, and the std outcome against the specification (guarding the transcription of std).", "6 C13"),
  "C14": ("tlc-guestmem", "ScriptIO.tla transcribes retry_eintr! and the default exact loops; GuestMem.tla composes them with the try_access continuation across regions. TLC checks 'interruption never surfaces', 'exact iff full count' and 'every consumed byte is stored at the next guest address' for every script of up to 3 per-call behaviours (full, short 1/2, zero, EINTR, error) x every start and count on layouts with touching regions, holes and a target ending in a hole; every such transition (scripts up to length 2 quick / 4 thorough) is replayed with scripted reader/writer objects on region and guest level (mmap, file-backed and default-method backends) and validated by TLC, plus random longer scripts.", "6 C14"),
  "C19": ("tlc-addrarith", "AddrArith.tla states the exact meaning of every address operation and transcribes checked_align_up / unchecked_align_up / mask; TLC checks transcription = meaning for every operand pair of an 8-bit word and checks the 16-bit-limb arithmetic used for 64-bit operands against integer arithmetic. The crate's own macro instantiated at 8 bits (hook) is driven over operand pairs and GuestAddress / MemoryRegionAddress over all pairings of values within 4 of 0, 2^32, 2^63, 2^64, all 64 alignments and random operands; every recorded result is validated by TLC.", "6 C19"),
@@ -26,6 +27,7 @@ CLAIMS = {
 }
 ENGINES = {
  "tlc-bitmap": ("/verif/spec/Bitmap.tla", "Bitmap as a set of page numbers"),
+ "tlc-regions": ("/verif/spec/Regions.tla", "immutable maps built from region handles; history of all maps"),
  "tlc-streams": ("/verif/spec/Streams.tla", "stream adapters specified by their std::io counterparts"),
  "tlc-addrarith": ("/verif/spec/AddrArith.tla", "address arithmetic: exact meaning, transcription, limb arithmetic"),
  "tlc-endian": ("/verif/spec/Endian.tla", "endian wrappers as built by the macro, on both host byte orders"),
